@@ -14,6 +14,16 @@ Theorem C18_publish :
 Proof. exact publish_form. Qed.
 Print Assumptions C18_publish.
 
+(* the call that reaches the broker client (MQTTClient._publish): QoS = ack, retain
+   off, for every message — with an empty payload too *)
+Theorem C18_client_publish :
+  forall pre m, wf_msg m -> digits_ok (m_type m) -> rstrip (m_payload m) = m_payload m ->
+    client_write pre (encode m)
+    = Some (pre ++ slash :: join slash (num_fields m), m_ack m, false,
+            match m_payload m with [] => None | _ => Some (m_payload m) end).
+Proof. exact client_publish_form. Qed.
+Print Assumptions C18_client_publish.
+
 (* a broker message on in-prefix/node/child/command/ack/type is read back as the line
    node;child;command;ack;type;payload *)
 Theorem C18_read_back :
